@@ -40,6 +40,7 @@ type envState struct {
 	fs         *fsModel
 	tmpSeq     int
 	lastSched  *scheduler
+	mapOrderNondet bool
 	inSpawn    bool
 	sleepBudget int
 }
